@@ -12,7 +12,7 @@ import (
 // unknown destination), a message that succeeds leaves the receipt of the decoded triple in the transaction's state,
 // and a second message for the same triple - other bytes, proof, height, signer - is then rejected.
 func VerifC01MsgServer() {
-	w := newXWorld(2)
+	w := newXWorld(2 + rt.Tier())
 	msg := &packettypes.MsgRecvPacket{Packet: rt.Bytes("packetBytes"), ProofCommitment: rt.Bytes("proof"),
 		ProofHeight: clienttypes.Height{RevisionNumber: rt.U64("rev"), RevisionHeight: rt.U64("height")}, Signer: rt.Str("signer")}
 	var p packettypes.Packet
